@@ -19,6 +19,7 @@ int main(int argc, char** argv)
         std::string e = std::string(f) + "(a" + j + (tail == 0 ? ")" : tail == 1 ? ", &b)" : ""); g_current = e.c_str(); ++total;
         alarm(10); std::error_code ec; try { auto x = jmespath::make_expression<json>(e, ec); if (!ec) ++compiled; } catch (const std::exception&) {} alarm(0);
     }
+    for (const char* e : {"{1}", "{: a}", "{*}", "{]", "{?a}", "{-a: b}", "{0: a}", "x.{9}", "{a: b}.{:}"}) { g_current = e; ++total; alarm(10); std::error_code ec; try { auto x = jmespath::make_expression<json>(e, ec); if (!ec) VX_REPRO("the malformed multi-select hash " << e << " compiles"); } catch (const std::exception&) {} alarm(0); }
     for (const char* e : {"a)", "a))", "(a))", "length(a))", "length(a) )", "a.b)", "a | b)", "a[0])", "`1`)", "a && b)", ")", "a[?b)]"}) { g_current = e; ++total; alarm(10); std::error_code ec; try { auto x = jmespath::make_expression<json>(e, ec); if (!ec) VX_REPRO("the unbalanced expression " << e << " compiles"); } catch (const std::exception&) {} alarm(0); }
     for (const char* e : {"length(a)", "sort_by(a, &b)", "max_by(a, &to_number(b))", "length( a )", "join(', ', a)", "not_null(a, b, c)"}) { g_current = e; ++total; alarm(10); std::error_code ec; auto x = jmespath::make_expression<json>(e, ec); alarm(0); if (ec) VX_REPRO("the well-formed call " << e << " is refused: " << ec.message()); ++compiled; }
     VX_NOREPRO("the compiler returned for all " << total << " expressions (" << compiled << " compiled)");
